@@ -44,3 +44,112 @@ Example C10_example_limit :
   snd (feed (mkLimits 9 9 4 0) [] init [71;69;84;32;47;97;97;97;97;13;10] []) = ROk [].
 Proof. split; vm_compute; reflexivity. Qed.
 Print Assumptions C10_example_limit.
+
+(* ====================================================================================================
+   RESPONSE parser (HttpResponseParser, lax mode).  Model: Model/HttpResp.v; proofs:
+   Proofs/HttpRespLimits.v, HttpRespReject.v.  The result types of rfeed / rfeed_eof have exactly two
+   shapes - normal return or one of the HttpProcessingError classes; the harness checks on every
+   generated input that the implementation's outcome has the same shape and class. *)
+From AV Require Import Lib.Utf8Decode Generated.HttpRespGen Model.HttpResp
+  Proofs.HttpRespBase Proofs.HttpRespChunk Proofs.HttpRespSeg Proofs.HttpRespLimits Proofs.HttpRespEx Proofs.HttpRespReject.
+
+(* Retained bytes: after ANY sequence of reads that has not been rejected the parser holds at most one
+   partial start/field line within the limits, at most max_headers complete lines each within the
+   limits, at most max_trailers (<= max_headers) trailer lines each within max_field_size, and a
+   partial chunk-size / trailer line of at most 2 * max(max_line, max_field) + (longest read) bytes
+   (its length is re-checked when the next read starts) - every stream, segmentation, configuration. *)
+Theorem C10_resp_retained_bound : forall cfg, max_queue (c_lim cfg) = 0 ->
+  forall segs s a lo0 s' a' lo n,
+    rwf s -> rbounded (c_lim cfg) n s -> rrun_segs cfg s segs a lo0 = (s', a', OOk lo) ->
+    rbounded (c_lim cfg) (N.max n (maxlen segs)) s'.
+Proof. exact rrun_segs_bounded. Qed.
+Print Assumptions C10_resp_retained_bound.
+
+Theorem C10_resp_retained_bound_feed : forall cfg s d a s' a' lo n,
+  max_queue (c_lim cfg) = 0 -> rwf s -> rbounded (c_lim cfg) n s ->
+  rfeed cfg s d a = (s', a', OOk lo) ->
+  rbounded (c_lim cfg) (N.max n (lenN d)) s'.
+Proof. exact rfeed_bounded. Qed.
+Print Assumptions C10_resp_retained_bound_feed.
+
+Theorem C10_resp_retained_bound_init : forall lim n, rbounded lim n rinit.
+Proof. exact rbounded_init. Qed.
+Print Assumptions C10_resp_retained_bound_init.
+
+Example C10_resp_retained_bound_hyps : rwf rinit /\ rbounded (mkLimits 16 8 4 0) 0 rinit.
+Proof. exact ex_bounded_hyps. Qed.
+Print Assumptions C10_resp_retained_bound_hyps.
+
+(* A complete status line / field line whose content (trailing CRs removed) is longer than
+   max_line_size / max_field_size is rejected with LineTooLong, wherever the read boundaries fell. *)
+Theorem C10_resp_line_limit : forall cfg f s buf a raw rest,
+  rpayload s = None -> rupgraded s = false -> max_queue (c_lim cfg) = 0 -> rshould_close s = false ->
+  find_lf buf = Some (raw, rest) -> buf <> [] ->
+  match rlines s with [] => max_line (c_lim cfg) | _ => max_field (c_lim cfg) end < lenN (rstrip_cr raw) ->
+  rfeed_loop (S f) cfg s buf a = (s, a, OErr ELineTooLong).
+Proof. exact rheader_line_too_long. Qed.
+Print Assumptions C10_resp_line_limit.
+
+Theorem C10_resp_header_count : forall cfg f s buf a raw rest,
+  rpayload s = None -> rupgraded s = false -> max_queue (c_lim cfg) = 0 -> rshould_close s = false ->
+  find_lf buf = Some (raw, rest) -> buf <> [] -> rlines s <> [] ->
+  lenN (rstrip_cr raw) <= max_field (c_lim cfg) -> max_headers (c_lim cfg) < lenN (rlines s) + 1 ->
+  rfeed_loop (S f) cfg s buf a = (s, a, OErr EBadMessage).
+Proof. exact rtoo_many_headers. Qed.
+Print Assumptions C10_resp_header_count.
+
+(* obs-fold: every accepted field value - the first piece joined with its continuation lines - is
+   within max_field_size when the physical lines are (they are: C10_resp_retained_bound) *)
+Theorem C10_resp_folded_value_bound : forall mf lines hs,
+  Forall (fun l => lenN l <= mf) lines -> parse_headers_lax mf lines = QOk hs ->
+  Forall (fun kv : bytes * bytes => lenN (snd kv) <= mf) hs.
+Proof. exact rfolded_value_bound. Qed.
+Print Assumptions C10_resp_folded_value_bound.
+
+(* non-vacuity: max_field = 10, "X: 12345" + " 123456" (each line within the limit, the folded value
+   not) is LineTooLong; a 17-byte status line under max_line 16 / 17 *)
+Example C10_resp_example_limits :
+  snd (rfeed rcfg10 rinit x_fold []) = OErr ELineTooLong /\
+  snd (rfeed (mkCfg (mkLimits 16 8 4 0) true true) rinit [72;84;84;80;47;49;46;49;32;50;48;48;32;79;75;33;33;13;10] []) = OErr ELineTooLong /\
+  snd (rfeed (mkCfg (mkLimits 17 8 4 0) true true) rinit [72;84;84;80;47;49;46;49;32;50;48;48;32;79;75;33;33;13;10] []) = OOk [].
+Proof. exact (conj ex_fold_limit ex_limit). Qed.
+Print Assumptions C10_resp_example_limits.
+
+(* ---- what an accepted response head satisfies (rejection lemmas, C01 style) ---- *)
+(* status line: HTTP/d.d, exactly three ASCII digits, on the decoded text *)
+Theorem C10_resp_status_line : forall mf sl fls m, parse_response mf (sl :: fls) = QOk m ->
+  exists a b c, dec_digit a = true /\ dec_digit b = true /\ dec_digit c = true /\
+    rm_code m = parse_dec [a; b; c] /\ rm_code m < 1000 /\
+    exists version reason, split_status_line (decode_se sl) = Some (version, [a; b; c], reason) /\
+      parse_version version = Some (rm_vmaj m, rm_vmin m).
+Proof. exact accepted_resp_status. Qed.
+Print Assumptions C10_resp_status_line.
+
+(* every field, folded or not: non-empty token name, no NUL / CR / LF in the value *)
+Theorem C10_resp_fields_ok : forall mf sl fls m, parse_response mf (sl :: fls) = QOk m ->
+  Forall (fun kv : bytes * bytes =>
+            fst kv <> [] /\ forallb tchar (fst kv) = true /\ existsb lax_value_forbidden (snd kv) = false)
+         (rm_headers m).
+Proof. exact accepted_resp_fields_ok. Qed.
+Print Assumptions C10_resp_fields_ok.
+
+Theorem C10_resp_reject_leading_ows : forall mf l ls hs,
+  starts_ows l = true -> parse_headers_lax mf (l :: ls) <> QOk hs.
+Proof. exact leading_ows_rejected. Qed.
+Print Assumptions C10_resp_reject_leading_ows.
+
+(* Content-Length together with Transfer-Encoding is never accepted *)
+Theorem C10_resp_reject_cl_and_te : forall mf sl fls m, parse_response mf (sl :: fls) = QOk m ->
+  ~ (has_header h_transfer_encoding (rm_headers m) = true /\ has_header h_content_length (rm_headers m) = true).
+Proof. exact accepted_resp_not_cl_and_te. Qed.
+Print Assumptions C10_resp_reject_cl_and_te.
+
+(* Content-Length must be 1*DIGIT *)
+Theorem C10_resp_content_length_decimal : forall cfg s ls r, rstart_message cfg s ls = QOk r ->
+  exists m, parse_response (max_field (c_lim cfg)) (removelast ls) = QOk m /\
+    match get_header h_content_length (rm_headers m) with
+    | Some v => v <> [] /\ forallb dec_digit v = true
+    | None => True
+    end /\ has_header h_sec_websocket_key1 (rm_headers m) = false.
+Proof. exact rstart_message_cl. Qed.
+Print Assumptions C10_resp_content_length_decimal.
